@@ -86,7 +86,12 @@ def P3_adapter(ctx):
     bad = []
     for c in cls:
         cf = ctx.fn(c)
-        for p in feasible(cf.paths()):
+        cps = feasible(cf.paths())
+        # the adapter closure is the one that invokes the implementation; closures nested in it (handed to a combinator) are
+        # analysed as part of it
+        if not any(e.kind == 'call' and e.d['callee'].endswith('::call') and 'precompile' in show(e.d['args'][0]) for p in cps for e in p.events):
+            continue
+        for p in cps:
             ret = [e for e in p.events if e.kind == 'ret'][0].d['value']
             call = [e for e in p.events if e.kind == 'call' and e.d['callee'].endswith('::call') and 'precompile' in show(e.d['args'][0])]
             # the recorded fault is taken out of the facade state (through take_fault or directly)
@@ -233,7 +238,11 @@ def G1_config_flow(ctx):
         'GrevmConfig.delegated_safety': {'build', 'parallel_execute_inner', 'replay_uncommitted_suffix', 'with_delegated_safety', 'from_env', 'default'},
     }
     for fld, allowed in table.items():
-        rd = {re.sub(r'::\{closure#\d+\}', '', x).split('::')[-1] for x in field_readers(facts, 'config::' + fld)}
+        readers = field_readers(facts, 'config::' + fld)
+        # a function of config.rs that returns a GrevmConfig is a constructor/builder: copying a knob into the same knob of
+        # the new value (struct update syntax, field by field) is not a use of it
+        builders = {x for x in readers if facts.by[x].get('file', '').endswith('config.rs') and facts.by[x]['locals'] and facts.by[x]['locals'][0]['ty'].endswith('GrevmConfig')}
+        rd = {re.sub(r'::\{closure#\d+\}', '', x).split('::')[-1] for x in readers - builders} | ({'from_env'} & {x.split('::')[-1] for x in builders})
         rd -= {'clone', 'eq', 'ne', 'fmt', 'hash'}
         ctx.ob('G1', 'config::' + fld, 'who-reads', rd <= allowed and len(rd) >= 2, f'readers {sorted(rd)}; allowed {sorted(allowed)}',
                what='scheduling knobs may influence only how work is scheduled (spawn count, path selection); a new reader is a new way for configuration to reach results')
@@ -374,7 +383,7 @@ def G3_sources(ctx):
         for p in ps:
             for a in p.events:
                 if a.kind == 'atom' and ('Instant::elapsed' in show(a.d['term']) or 'Instant::now' in show(a.d['term'])):
-                    if not ('STALL_TIMEOUT' in show(a.d['term']) and b['fn'].endswith('run_finality_loop')):
+                    if not ('STALL_TIMEOUT' in show(a.d['term']) and facts.owners(b['fn']) == {'run_finality_loop'}):
                         bad.append((b['fn'], a.line))
     ctx.count('G3.functions-reading-the-clock', n_clock)
     ctx.ob('G3', 'std::time::Instant', 'no-decision-depends-on-the-clock', n_clock >= 3 and not bad, f'{sorted(set(bad))[:4]}',
